@@ -252,8 +252,18 @@ theorem run_reachable (E : Engine) {ic : Bool} (P : List Char → Prop) (ops : L
     | cache limit level =>
       obtain ⟨tc, n, hc, hs, _⟩ := treeCache_spec E t limit level
       simp only [treeRun, treeStep, hc, Option.map_some] at h
-      refine ih tc (by rw [← inv_strip, hs, inv_strip]; exact hinv) ?_
+      refine ih tc (by rw [inv_of_treeCache hc]; exact hinv) ?_
         (fun q hq => hins q (by simpa [insertedPats] using hq)) t' h
       rw [← contents_strip, hs, contents_strip]; exact hP
+
+end Rio.Tree
+
+namespace Rio.Tree
+variable {ι V : Type} [DecidableEq ι]
+
+theorem insertedPats_dropCache (ops : List (Op ι V)) : insertedPats (dropCache ops) = insertedPats ops := by
+  induction ops with
+  | nil => rfl
+  | cons op ops ih => cases op <;> simp [dropCache, insertedPats, ih]
 
 end Rio.Tree
